@@ -7,6 +7,7 @@ also be stored into a register, to improve performance.
 from .transform import FunctionPass
 from .. import ir
 from ..graph.domtree import CfgInfo
+from ..utils.collections import OrderedSet
 
 
 def is_alloc_promotable(alloc_inst: ir.Alloc):
@@ -64,10 +65,10 @@ class Mem2RegPromotor(FunctionPass):
         Each node in the df(x) requires a phi function,
         where x is a block where the variable is defined.
         """
-        defining_blocks = {st.block for st in stores}
+        defining_blocks = OrderedSet(st.block for st in stores)
 
         # Create worklist:
-        block_backlog = set(defining_blocks)
+        block_backlog = OrderedSet(defining_blocks)
 
         has_phi = set()
 
@@ -75,7 +76,9 @@ class Mem2RegPromotor(FunctionPass):
         idx = 0
         while block_backlog:
             defining_block = block_backlog.pop()
-            for frontier_block in cfg_info.df[defining_block]:
+            for frontier_block in sorted(
+                cfg_info.df[defining_block], key=lambda b: b.name
+            ):
                 if frontier_block not in has_phi:
                     has_phi.add(frontier_block)
                     block_backlog.add(frontier_block)
